@@ -120,8 +120,8 @@ type val struct {
 func jsonVal[T any](v *T, strs ...string) val {
 	var z T
 	return val{
-		v:     v,
-		fresh: func() any { return new(T) },
+		v:      v,
+		fresh:  func() any { return new(T) },
 		equal:  func(a, b any) bool { return reflect.DeepEqual(a, b) },
 		desc:   fmt.Sprintf("%T%+v", v, *v),
 		zero:   reflect.DeepEqual(*v, z),
